@@ -117,6 +117,10 @@ def run(ctx):
     if ctx.replay and 'authz_sequences' in ctx.replay:
         srv.replay_authz_sequences(ctx, False)
         return
+    if ctx.replay and 'tls_role_cases' in ctx.replay:
+        from checks import c08_tls
+        c08_tls.run_tls_roles(ctx)
+        return
     if ctx.replay and 'cases' in ctx.replay:
         cases = [srv.case_from_json(c) for c in ctx.replay['cases']]
     else:
@@ -157,6 +161,10 @@ def run(ctx):
         st.update(authz_sequence_pass(ctx))
     if not ctx.quick() and not ctx.replay:
         st.update(tls_pass(ctx))
+    if not ctx.replay:
+        # real TLS sessions with client certificates of different role content (lib/checks/c08_tls.py)
+        from checks import c08_tls
+        st.update(c08_tls.run_tls_roles(ctx))
     cl = srv.coverage(ctx, cases, impl,
                       'sessions with an authorization handler: 8 kinds x allow/deny x configured/unconfigured/broadcast destination, built-in read-only and default '
                       'handlers per kind, then mixed sessions under hashed policies (seed, allow percentage 0..100) and arbitrary role strings; '
